@@ -870,11 +870,23 @@ func TestC38(t *testing.T) {
 			// heavy batch: once the burners are confirmed and (exact mode) the pool is empty
 			if heavy && !heavyDone && len(s.burners) > 0 {
 				if _, ok := best.Utxo[s.burners[0].u.ID]; ok && (!exact || len(s.nd.Pool.GetTransactions()) == 0) {
+					var batch []*poolTx
 					for _, b := range s.burners {
 						if p := s.heavyTx(b, next); p != nil {
 							q := s.submit(p.tx, p.class)
 							q.gas = p.gas
+							batch = append(batch, q)
 						}
+					}
+					if hk%2 == 1 {
+						// every heavy transaction gets a cheap child, submitted after the whole batch: the children of
+						// the transactions that do not fit come several template batches (16) after their parents
+						for _, q := range batch {
+							if o := chainkit.Outputs(q.tx); len(o) > 0 {
+								s.submit(s.pay([]*chainkit.UTXO{o[0]}, 1, o[0].Amount/2, 0), "child-of-gas-heavy")
+							}
+						}
+						c.Count("heavy_batches_followed_by_children", 1)
 					}
 					heavyDone = true
 					if exact {
@@ -990,6 +1002,10 @@ func TestC38(t *testing.T) {
 	r.Floor("heavy_batches_with_first_k_total=limit+1", 2)
 	r.Floor("heavy_batches_with_first_k_total=limit-1", 2)
 	r.Floor("heavy_batches_over_limit", 2)
+	r.Floor("heavy_batches_followed_by_children", 3)
+	r.Floor("admitted:child-of-gas-heavy", 100)
+	r.Floor("included:child-of-gas-heavy", 30)
+	r.Floor("left-in-pool:child-of-gas-heavy", 3)
 	r.Floor("pool_txs_included", 300)
 	for _, cl := range []string{"valid", "conflict-first", "conflict-second", "chain-parent", "chain-child", "timerange=best-height(expired-next)", "gas-heavy", "multi-input-second-conflicts"} {
 		r.Floor("admitted:"+cl, 10)
